@@ -25,7 +25,9 @@ HERE = os.path.dirname(os.path.abspath(__file__))
 VERIF = os.path.dirname(HERE)
 REPO = os.environ.get('VERIF_REPO', '/repo')
 REG = json.load(open(os.path.join(VERIF, 'kani', 'harnesses.json')))
-BUILD = os.path.join(VERIF, 'build', 'kani')
+BUILD = os.path.join(VERIF, 'build', 'kani', 'p%d' % os.getpid())
+import atexit
+atexit.register(lambda: shutil.rmtree(BUILD, ignore_errors=True) if not os.environ.get('VERIF_KEEP_BUILD') else None)
 TARGET = os.path.join(VERIF, 'build', 'kani_target')
 
 
@@ -187,6 +189,30 @@ def _cex(setname, crate, h, crate_dir):
     return cex
 
 
+def run_native(crate, h):
+    """bounded native enumeration compiled against the real code: exit status != 0 and a line
+    `VERIF_REPLAY_K=V ...` naming the first failing case"""
+    d = _prep(crate)
+    env = _env(crate)
+    env.update(h.get('env', {}))
+    t0 = time.time()
+    try:
+        p = subprocess.run(h['cmd'], cwd=d, env=env, stdout=subprocess.PIPE, stderr=subprocess.STDOUT, text=True,
+                           timeout=h.get('timeout', 900))
+    except subprocess.TimeoutExpired:
+        return 'timeout', '', time.time() - t0, None
+    dt = time.time() - t0
+    if 'could not compile' in p.stdout or 'error[' in p.stdout:
+        return 'error', p.stdout[-800:], dt, None
+    if p.returncode == 0:
+        return 'ok', p.stdout[-400:], dt, None
+    envline = [l for l in p.stdout.split('\n') if l.startswith('VERIF_REPLAY_')]
+    cex = {'found': bool(envline), 'crate': crate, 'harness': h['name'], 'native_replay_fails': True,
+           'env': dict(kv.split('=', 1) for kv in envline[0].split()) if envline else {},
+           'cmd': [c for c in h['cmd']], 'native_output': '\n'.join(l for l in p.stdout.split('\n') if 'FAILING CASE' in l or l.startswith('VERIF_REPLAY_'))[-1500:]}
+    return 'failed', p.stdout[-800:], dt, cex
+
+
 def run_harness_set(spec, tier='quick', known=()):
     setname = spec['set'] if isinstance(spec, dict) else spec
     reg = REG[setname]
@@ -195,9 +221,14 @@ def run_harness_set(spec, tier='quick', known=()):
            'trusted': reg.get('trusted', []), 'cmd': ''}
     d = _prep(crate)
     for h in reg['harnesses']:
-        if tier == 'quick' and h.get('tier', 'thorough') != 'quick':
+        if h.get('tier') == 'manual' or (tier == 'quick' and h.get('tier', 'thorough') != 'quick'):
             continue
-        st, out, dt, cmd = run_kani(d, h['name'], h.get('timeout', 900), extra=h.get('kani_args', ()))
+        ncex = None
+        if h.get('kind') == 'native':
+            st, out, dt, ncex = run_native(crate, h)
+            cmd = ' '.join(h['cmd'])
+        else:
+            st, out, dt, cmd = run_kani(d, h['name'], h.get('timeout', 900), extra=h.get('kani_args', ()))
         res['cmd'] = cmd
         rec = {'name': '%s/%s' % (setname, h['name']), 'complete': bool(h.get('complete')),
                'bound': h.get('bound'), 'ok': st == 'ok', 'time_s': round(dt, 1), 'status': st,
@@ -207,6 +238,8 @@ def run_harness_set(spec, tier='quick', known=()):
             obl = 'kani/%s/%s' % (setname, h['name'])
             if any(re.search(k, obl) for k in known):
                 cex = {'found': False, 'note': 'listed known finding: counterexample extraction skipped'}
+            elif ncex is not None:
+                cex = ncex
             else:
                 cex = _cex(setname, crate, h, d)
             res['failures'].append({
@@ -230,6 +263,12 @@ def counterexample_for(failure):
     notes = []
     for setname, reg in REG.items():
         for h in reg['harnesses']:
+            if fn and fn in h.get('twin_of', []) and h.get('kind') == 'native':
+                st, out, dt, ncex = run_native(reg['crate'], h)
+                if st == 'failed' and ncex and ncex.get('found'):
+                    return ncex
+                notes.append('native twin %s/%s: %s within bound (%s)' % (setname, h['name'], st, h.get('bound')))
+                continue
             if fn and fn in h.get('twin_of', []):
                 d = _prep(reg['crate'])
                 st, out, dt, cmd = run_kani(d, h['name'], h.get('timeout', 600), extra=h.get('kani_args', ()))
